@@ -522,4 +522,112 @@ def runForest (env : Env) : List Tree → Stores → List (Out × List (Option O
   | [], _ => []
   | t :: ts, s => let r := runTree env t s; (r.out, r.log) :: runForest env ts r.st
 
+/-! ### calls in flight at the same time: live generators, suspended coroutines
+
+A generator function is checked in pieces: the parameters when the call is made (the `GeneratorWrapper` is created then and
+is handed the store of the call), every yielded value (and the `None` sent in / returned) when the consumer asks for the
+next item.  A coroutine function checks its parameters when it is first stepped and its result when its body ends.  Between
+two pieces of one call, pieces of OTHER calls — of the same function, on the same instance — may run.  `Job`: a call in
+flight with the checks of its remaining advances; `Sys`: all jobs of a schedule plus the stores; `advance j`: job `j` runs
+its next piece; a schedule is the list of jobs in the order they advance.
+
+The dict of a call is one object from its first check to its last: for a method of a `@pedantic_class` instance it is the
+object the accessor stored in the instance attribute, so the attribute REFERS to the dict of the job that resolved last on
+that instance (`Ref.job`), later bindings of that job included. -/
+
+structure Job where
+  c : Call                              -- the call; at the start `c.checks` is `todo.flatten`
+  eager : Bool                          -- generator function: the wrapper is created when the call is made and reads the store then
+  todo : List (List (A × Val))          -- the checks of each remaining advance, in order
+  started : Bool                        -- the call has been made (first advance done)
+  dict : Option TVMap                   -- the resolved store of the call, once it has been read
+  priv : TVMap                          -- `FunctionCall._type_vars`, the private dict (used by nothing unless the wrapper is handed it)
+  out : Option Out                      -- ended: failed with that outcome, or `.ok` after the last advance
+
+/-- a call about to be made -/
+def Job.fresh (c : Call) (eager : Bool) (segs : List (List (A × Val))) : Job := ⟨c, eager, segs, false, none, [], none⟩
+
+/-- the job-local part of an advance; `cm0`: what `FunctionCall._type_vars` starts with, `attr`: what the attribute of the
+    instance shows now (read only if the store of the call is resolved by this advance) -/
+def Job.step (env : Env) (jb : Job) (cm0 attr : TVMap) : Job :=
+  match jb.out, jb.todo with
+  | some _, _ => jb
+  | none, [] => { jb with out := some .ok }
+  | none, seg :: rest =>
+    let later := jb.eager && jb.started                       -- a check made by the generator wrapper
+    let usePriv := later && !generatorGetsResolvedStore && usesAttr jb.c.kind
+    let resolveNow := jb.dict.isNone && (!seg.isEmpty || (jb.eager && !jb.started))
+    if resolveNow && isScanFail jb.c then { jb with started := true, out := some (runCall env jb.c Stores.empty).1 } else
+    let d : Option TVMap := match jb.dict with
+      | some m => some m
+      | none => if resolveNow then some (accessMap jb.c.kind cm0 attr) else none
+    let fin (o : Out) : Option Out := match o with
+      | .ok => if rest.isEmpty then some .ok else none
+      | o => some o
+    if usePriv then
+      let r := runFrom env seg jb.priv
+      { jb with todo := rest, started := true, dict := d, priv := r.2, out := fin r.1 }
+    else
+      match d with
+      | none => { jb with todo := rest, started := true, out := fin .ok }          -- nothing to check, nothing read
+      | some m =>
+        let r := runFrom env seg m
+        { jb with todo := rest, started := true, dict := some r.2, out := fin r.1 }
+
+inductive Ref where
+  | val (m : TVMap)                     -- a dict no job in flight owns
+  | job (j : Nat)                       -- the dict of job `j`
+
+structure Sys where
+  jobs : List Job
+  attrs : List (Nat × Ref)              -- instance ↦ what its attribute refers to (first entry wins)
+  fns : Table
+
+/-- the dict the attribute of instance `key` shows -/
+def Sys.attr (s : Sys) (key : Nat) : TVMap :=
+  match s.attrs.lookup key with
+  | none => []
+  | some (.val m) => m
+  | some (.job j) =>
+    match s.jobs[j]? with
+    | some jb => (match jb.dict with | some m => m | none => [])
+    | none => []
+
+def advance (env : Env) (j : Nat) (s : Sys) : Sys :=
+  match s.jobs[j]? with
+  | none => s
+  | some jb =>
+    let cm0 := if perCallFreshMap then [] else s.fns.get jb.c.fn
+    let jb' := jb.step env cm0 (s.attr (attrKey jb.c))
+    { jobs := s.jobs.set j jb',
+      attrs := if jb.dict.isNone && jb'.dict.isSome && usesAttr jb.c.kind then (attrKey jb.c, .job j) :: s.attrs else s.attrs,
+      fns := if perCallFreshMap then s.fns else s.fns.put jb.c.fn (match jb'.dict with | some m => m | none => cm0) }
+
+def runOrder (env : Env) : List Nat → Sys → Sys
+  | [], s => s
+  | j :: js, s => runOrder env js (advance env j s)
+
+def Sys.ofStores (jobs : List Job) (s : Stores) : Sys := ⟨jobs, s.attrs.map (fun kv => (kv.1, .val kv.2)), s.fns⟩
+
+/-- the stores when no job is in flight any more: every attribute holds the dict it referred to -/
+def Sys.toStores (z : Sys) : Stores :=
+  { attrs := z.attrs.reverse.foldl (fun t kv => t.put kv.1 (z.attr kv.1)) [], fns := z.fns }
+
+/-- a top-level step of a history: a call with its tree of nested calls, or a (checked, TypeVar-free) function whose body makes
+    the calls `jobs` and advances them in the order `order` -/
+inductive Top where
+  | tree (t : Tree)
+  | sched (root : Call) (jobs : List Job) (order : List Nat)
+
+def runTop (env : Env) : Top → Stores → (Out × List (Option Out)) × Stores
+  | .tree t, s => let r := runTree env t s; ((r.out, r.log), r.st)
+  | .sched root jobs order, s =>
+    let z := runOrder env order (Sys.ofStores jobs s)
+    let r := runCall env root z.toStores
+    ((r.1, z.jobs.map (·.out)), r.2)
+
+def runTops (env : Env) : List Top → Stores → List (Out × List (Option Out))
+  | [], _ => []
+  | x :: xs, s => let r := runTop env x s; r.1 :: runTops env xs r.2
+
 end PedVerif.TypeVars
